@@ -40,6 +40,17 @@ impl QueryMut for InsertValuesQuery {
     fn process<Store: StorageData>(&self, db: &mut DbImpl<Store>) -> Result<QueryResult, DbError> {
         let mut result = QueryResult::default();
 
+        if let QueryIds::Ids(ids) = &self.ids
+            && ids
+                .iter()
+                .any(|id| matches!(id, QueryId::Alias(alias) if alias.is_empty()))
+        {
+            return Err(DbError::query(
+                DbErrorType::NotAllowed,
+                "Empty alias is not allowed",
+            ));
+        }
+
         match &self.ids {
             QueryIds::Ids(ids) => match &self.values {
                 QueryValues::Single(values) => {
